@@ -255,16 +255,16 @@ META["C14"] = {
 
 META["C11"] = {
     "title": "publish/connect and share subscribe the source once and multicast",
-    "rule": "cases = (share | share_threads | publish::<Subject>()+fork()/connect(), source hot Subject behind a tap counter | deferred cold synchronous source behind a subscription counter | interval(5ms) on the virtual clock behind a tap counter, history of length <= 10 quick / <= 18 thorough over subscribe(k) / unsubscribe(k) / source-emit / source-complete / connect / one-period tick, k < 3, one subscription per slot). Checked in lock step against a multicast model: who was subscribed at each emission receives it once, in order; the source is not subscribed before connect(); it is subscribed at most once; after the last subscriber's unsubscribe() returned the tap counter no longer moves on later source events (hot) or one period later (interval). Non-trivial: at least two subscribers overlapped and one left before the source ended; distinct = hash(case).",
+    "rule": "cases = (share | share_threads | publish::<Subject>()+fork()/connect(), source hot Subject behind a tap counter | deferred cold synchronous source behind a subscription counter | interval(5ms) on the virtual clock behind a tap counter, history of length <= 10 quick / <= 18 thorough over subscribe(k) / unsubscribe(k) / source-emit / source-complete / connect / one-period tick, k < 3, one subscription per slot). Checked in lock step against a multicast model: who was subscribed at each emission receives it once, in order; the source is not subscribed before connect(); it is subscribed at most once; after the last subscriber's unsubscribe() returned the tap counter no longer moves on later source events (hot) or one period later (interval). Non-trivial: at least two subscribers overlapped and one left before the source ended; distinct = hash(case). Thread part (scenario share_threads[multi]): 2-3 probes subscribed to clones of one hot.share_threads(), 2-3 threads each running up to 4 of next / unsubscribe(k) / subscribe (never re-joining after the count reached zero) plus an occasional terminal, scheduled at the hooked lock points (random, PCT and preemption-bounded systematic schedules) and then free-running on OS threads with seeded jitter; oracle over call/return stamps: a subscriber whose subscribe() returned before next(v) was called and whose unsubscribe() was not called before it returned receives v exactly once, all subscribers agree on one order, nothing begins on a probe after its unsubscribe() returned, every call returns.",
     "assumptions": COMMON_ASSUME + [
         "re-joining a share after its subscriber count dropped to zero is unspecified and not generated",
         "a cold synchronous source emits during the connecting subscription: only subscribers present at that moment receive those items",
     ],
-    "technique": "runtime monitoring: recording probes, upstream tap counter and source-subscription counter on the real share/publish operators under random subscribe/unsubscribe/emit histories, compared with a multicast model",
-    "level_text": "Exploration over sampled histories for three source kinds and three multicast spellings.",
+    "technique": "runtime monitoring: recording probes, upstream tap counter and source-subscription counter on the real share/publish operators under random subscribe/unsubscribe/emit histories, compared with a multicast model; for share_threads additionally multi-threaded histories under a controlled scheduler at hooked lock points and free-running threads, judged by an interval (call/return) oracle",
+    "level_text": "Exploration over sampled histories for three source kinds and three multicast spellings, plus sampled and preemption-bounded thread schedules of a multi-subscriber share_threads.",
     "level_note": "Trusted: multicast model in harness/src/props/c11.rs, virtual clock for the interval source.",
     "design_ref": "DESIGN.md §5 C11",
-    "require": {"quick": {"modes_covered": 8, "histories_where_the_last_subscriber_left": 5000}, "thorough": {"modes_covered": 8}},
+    "require": {"quick": {"modes_covered": 8, "histories_where_the_last_subscriber_left": 5000, "thread_schedules": 8000, "free_parallel_runs": 1500}, "thorough": {"modes_covered": 8, "thread_schedules": 300000, "free_parallel_runs": 100000}},
 }
 
 META["C13"] = {
